@@ -72,11 +72,12 @@ def operand(name, t):
     return {'int': name, 'byte': f'({name} is byte)', 'bool': f'({name} is bool)'}[t]
 
 
-def binary_program(ops, ta, tb, position):
+def binary_program(ops, ta, tb, position, storage='local'):
     """loops over all ordered pairs of v; prints one result per (pair, op)"""
     body = []
     for op in ops:
-        e = f'{operand("a", ta)} {op} {operand("b", tb)}'
+        na, nb = ('a', 'b') if storage == 'local' else ('ga', 'gb') if storage == 'global' else ('ea[1]', 'ea[0]')
+        e = f'{operand(na, ta)} {op} {operand(nb, tb)}'
         guard = op in '/%'
         if position == 'value':
             s = f'write({e});' if op in ARITH else f'if ({e}) {{ write(\'T\'); }} else {{ write(\'F\'); }}'
@@ -92,6 +93,17 @@ def binary_program(ops, ta, tb, position):
             s = f'if (not ({e})) {{ write(\'T\'); }} else {{ write(\'F\'); }}'
         elif position == 'tid_not':
             s = f'try {{ !truth_is_defeat(not ({e})); write(\'F\'); }} stop {{ write(\'T\'); }}'
+        elif position == 'notnot_branch':
+            s = f'if (not not ({e})) {{ write(\'T\'); }} else {{ write(\'F\'); }}'
+        elif position == 'tid_notnot':
+            s = f'try {{ !truth_is_defeat(not not ({e})); write(\'F\'); }} undo {{ write(\'T\'); }}'
+        elif position == 'tid_not3':
+            s = f'try {{ !truth_is_defeat(not not not ({e})); write(\'F\'); }} stop {{ write(\'T\'); }}'
+        elif position == 'not_and':
+            s = (f'if (not ({e} and a != 3)) {{ write(\'T\'); }} else {{ write(\'F\'); }} '
+                 f'int m = 0; while (not ({e} and a != 3) and m < 1) {{ m += 1; }} write(m); '
+                 f'if (b != 3 and not ({e} and a != 3)) {{ write(\'T\'); }} else {{ write(\'F\'); }} '
+                 f'if (not (b == 3 or ({e} and a != 3))) {{ write(\'T\'); }} else {{ write(\'F\'); }}')
         elif position == 'logic':
             s = (f'if ({e} and a != 3) {{ write(\'T\'); }} else {{ write(\'F\'); }} if ({e} or b == 3) {{ write(\'T\'); }} else {{ write(\'F\'); }} '
                  f'try {{ !truth_is_defeat({e} or b == 3); write(\'F\'); }} undo {{ write(\'T\'); }}')
@@ -100,10 +112,10 @@ def binary_program(ops, ta, tb, position):
         else:
             raise ValueError(position)
         if guard:
-            s = f'if ({operand("b", tb)} != 0) {{ {s} }} else {{ write(\'z\'); }}'
+            s = f'if ({operand(nb, tb)} != 0) {{ {s} }} else {{ write(\'z\'); }}'
         body.append(f'{{ {s} }} write(\' \');')
-    return ('empty @is_you(const int[] v) {\n  for (int i = 0; i < v.length; i += 1) {\n    for (int j = 0; j < v.length; j += 1) {\n'
-            '      int a = v[i]; int b = v[j];\n      ' + '\n      '.join(body) + '\n    }\n    writeln();\n  }\n}\n')
+    return ('int ga = 0;\nint gb = 0;\nempty @is_you(const int[] v) {\n  int[] ea = [0, 0];\n  for (int i = 0; i < v.length; i += 1) {\n    for (int j = 0; j < v.length; j += 1) {\n'
+            '      int a = v[i]; int b = v[j]; ga = a; gb = b; ea[1] = a; ea[0] = b;\n      ' + '\n      '.join(body) + '\n    }\n    writeln();\n  }\n}\n')
 
 
 def binary_expected(sem, vals, ops, ta, tb, position):
@@ -126,8 +138,13 @@ def binary_expected(sem, vals, ops, ta, tb, position):
                         out += fmt(r) + (b'2' if r else b'0')
                 elif position in ('branch', 'tid_stop', 'tid_undo'):
                     out += fmt(bool(r))
-                elif position in ('not_branch', 'tid_not'):
+                elif position in ('not_branch', 'tid_not', 'tid_not3'):
                     out += fmt(not r)
+                elif position in ('notnot_branch', 'tid_notnot'):
+                    out += fmt(bool(r))
+                elif position == 'not_and':
+                    x = not (bool(r) and a0 != 3)
+                    out += fmt(x) + (b'1' if x else b'0') + fmt(b0 != 3 and x) + fmt(not (b0 == 3 or (bool(r) and a0 != 3)))
                 elif position == 'logic':
                     out += fmt(bool(r) and a0 != 3) + fmt(bool(r) or b0 == 3) + fmt(bool(r) or b0 == 3)
                 elif position == 'while':
@@ -154,7 +171,7 @@ UNARY = [
 ]
 
 
-def unary_program():
+def unary_program(storage='local'):
     body = [f'write({e}); write(\' \');' for e, _ in UNARY]
     body.append('byte nb = a is byte; int back = nb; write(back); write(\' \');')           # narrowing store, zero-extending load
     body.append('byte[] q = [a is byte, 1]; write(q[0] + q[1]); write(\' \');')
@@ -166,7 +183,15 @@ def unary_program():
     body.append('try { bool g3 = (a is byte) is bool; if (g3 == true) { !is_defeat(); } write(\'F\'); } stop { write(\'T\'); }')
     body.append('try { bool[] g4 = [a is bool, false]; !truth_is_defeat(g4[0] and not g4[1]); write(\'F\'); } undo { write(\'T\'); }')
     body.append('try { !truth_is_defeat((not (a is bool)) == false); write(\'F\'); } undo { write(\'T\'); }')
-    return ('empty @is_you(const int[] v) {\n  for (int i = 0; i < v.length; i += 1) {\n    int a = v[i];\n    ' + '\n    '.join(body) + '\n    writeln();\n  }\n}\n')
+    # `is byte` of a computed value outside 0..255 used directly as an index / array length
+    body.append('byte[] q8 = [10, 11, 12, 13, 14, 15, 16, 17]; q8[(((a % 8) + 8) % 8 + 256) is byte] += 100; write(q8[((a % 8) + 8) % 8] is int); write(\' \');')
+    body.append('q8[(((a % 8) + 8) % 8 + 512) is byte] = \'z\'; write(q8[((a % 8) + 8) % 8]); int[] q4 = [1, 2, 3, 4]; q4[(((a % 4) + 4) % 4 + 256) is byte] *= 5; write(q4[((a % 4) + 4) % 4]); write(\' \');')
+    body.append('int vb[(((a % 4) + 4) % 4 + 257) is byte]; write(vb.length); bool vf[(((a % 4) + 4) % 4 + 513) is byte]; write(vf.length); write(\' \');')
+    text = '\n    '.join(body)
+    if storage == 'global':
+        import re
+        text = re.sub(r'\ba\b', 'ga', text)
+    return ('int ga = 0;\nempty @is_you(const int[] v) {\n  for (int i = 0; i < v.length; i += 1) {\n    int a = v[i]; ga = a;\n    ' + text + '\n    writeln();\n  }\n}\n')
 
 
 def unary_expected(sem, vals):
@@ -178,12 +203,14 @@ def unary_expected(sem, vals):
         t = a != 0
         out += fmt(t) + fmt(t) + fmt(not t) + fmt(t) + fmt(t) + fmt(a & 0xFF != 0)
         out += fmt(t) + fmt(a & 0xFF != 0) + fmt(t) + fmt(t)
+        k8, k4 = a % 8, a % 4
+        out += fmt((10 + k8 + 100) & 0xFF) + b' ' + b'z' + fmt(sem.wrap((k4 + 1) * 5)) + b' ' + fmt(k4 + 1) + fmt(k4 + 1) + b' '
         out += b'\n'
     return bytes(out)
 
 
 COMBOS = [('int', 'int'), ('byte', 'int'), ('int', 'byte'), ('byte', 'byte')]
-POSITIONS = ['value', 'branch', 'tid_stop', 'tid_undo', 'not_branch', 'tid_not', 'logic', 'while']
+POSITIONS = ['value', 'branch', 'tid_stop', 'tid_undo', 'not_branch', 'tid_not', 'logic', 'while', 'notnot_branch', 'tid_notnot', 'tid_not3', 'not_and']
 
 
 def plan(tier, seed):
@@ -195,6 +222,10 @@ def plan(tier, seed):
                 specs.append({'kind': 'binary', 'word': word, 'ta': ta, 'tb': tb, 'ops': CMP, 'positions': [pos], 'tier': tier})
         specs.append({'kind': 'binary', 'word': word, 'ta': 'bool', 'tb': 'bool', 'ops': ['==', '!='], 'positions': POSITIONS, 'tier': tier})
         specs.append({'kind': 'unary', 'word': word, 'tier': tier})
+        specs.append({'kind': 'unary', 'word': word, 'tier': tier, 'storage': 'global'})
+        for storage in ('global', 'element'):
+            specs.append({'kind': 'binary', 'word': word, 'ta': 'int', 'tb': 'int', 'ops': ARITH, 'positions': ['value'], 'tier': tier, 'storage': storage})
+            specs.append({'kind': 'binary', 'word': word, 'ta': 'byte', 'tb': 'int', 'ops': CMP, 'positions': ['value', 'branch', 'tid_stop'], 'tier': tier, 'storage': storage})
     return specs
 
 
@@ -205,12 +236,14 @@ def run_shard(spec):
     vals = grid(8 * word, spec['tier'] == 'quick')
     args = [str(v) for v in vals]
     if spec['kind'] == 'unary':
-        jobs = [('unary+casts', unary_program(), unary_expected(sem, vals), len(vals) * (len(UNARY) + 8))]
+        st = spec.get('storage', 'local')
+        jobs = [(f'unary+casts ({st} operands)', unary_program(st), unary_expected(sem, vals), len(vals) * (len(UNARY) + 19))]
     else:
         jobs = []
         for pos in spec['positions']:
-            src = binary_program(spec['ops'], spec['ta'], spec['tb'], pos)
-            jobs.append((f'{spec["ta"]} {"".join(spec["ops"])} {spec["tb"]} as {pos}', src,
+            st = spec.get('storage', 'local')
+            src = binary_program(spec['ops'], spec['ta'], spec['tb'], pos, st)
+            jobs.append((f'{spec["ta"]} {"".join(spec["ops"])} {spec["tb"]} as {pos} ({st} operands)', src,
                          binary_expected(sem, vals, spec['ops'], spec['ta'], spec['tb'], pos), len(vals) ** 2 * len(spec['ops'])))
     for tag, src, want, napps in jobs:
         res['evaluations'] += 1
